@@ -57,6 +57,7 @@ let edges : (string, string * dd) Hashtbl.t = Hashtbl.create 31   (* name -> for
 let idxsets : (string, string * dd) Hashtbl.t = Hashtbl.create 7   (* index set name -> source set *)
 
 let xfiles : (string, string * dd option list) Hashtbl.t = Hashtbl.create 7
+let xfiles_ev : (string, string * int list option list) Hashtbl.t = Hashtbl.create 7
 
 (* ---- C17: registry state machine (extracted) ---- *)
 let ls = ref ls_init
@@ -499,12 +500,12 @@ let rec run toks =
     Hashtbl.reset edges; Hashtbl.reset evtabs;
     Hashtbl.iter (fun fn _ -> Hashtbl.replace dead_forests fn ()) fors;
     Hashtbl.iter (fun d _ -> Hashtbl.replace dead_doms d ()) doms;
-    Hashtbl.reset forest_ids; Hashtbl.reset dom_ids; Hashtbl.reset idxsets; Hashtbl.reset xfiles
+    Hashtbl.reset forest_ids; Hashtbl.reset dom_ids; Hashtbl.reset idxsets; Hashtbl.reset xfiles; Hashtbl.reset xfiles_ev
   | "cleanup" :: _ ->
     lstep_do LCleanup;
     Hashtbl.reset edges; Hashtbl.reset evtabs; Hashtbl.reset fors; Hashtbl.reset doms;
     Hashtbl.reset forest_ids; Hashtbl.reset dom_ids; Hashtbl.reset edge_ids; Hashtbl.reset dead_forests;
-    Hashtbl.reset edge_forest_name; Hashtbl.reset idxsets; Hashtbl.reset xfiles
+    Hashtbl.reset edge_forest_name; Hashtbl.reset idxsets; Hashtbl.reset xfiles; Hashtbl.reset xfiles_ev
   | "destroyforest" :: fn :: _ ->
     (match Hashtbl.find_opt forest_ids fn with
      | Some fid -> lstep_do (LDestroyForest (nat_of_int fid))
@@ -1084,7 +1085,42 @@ let rec run toks =
           if bad = [] then emit obs
           else emit ("audit FAILED " ^ Stdlib.String.concat " " (List.map (fun (c, h) ->
               Printf.sprintf "%s@%d" (clause_name (int_of_nat c)) (int_of_z h)) bad))))
+  | "write" :: id :: fn :: roots when (try (get_forest fn).lab = EVP with _ -> false) ->
+    (* EV+ forests: the model of the file is the list of tables written *)
+    let l = List.map (fun r ->
+        match Hashtbl.find_opt evtabs r with
+        | Some (fn', t) when fn' = fn -> Some t
+        | _ -> None) roots in
+    Hashtbl.remove xfiles id;
+    Hashtbl.replace xfiles_ev id (fn, l);
+    emit "write ok"
+  | ("read" | "readnew") :: id :: fn :: rest when Hashtbl.mem xfiles_ev id ->
+    let names = (match toks with "readnew" :: _ -> List.tl rest | _ -> rest) in
+    List.iter (fun n -> Hashtbl.remove edges n; Hashtbl.remove evtabs n) names;
+    let (src, l) = Hashtbl.find xfiles_ev id in
+    let fs = get_forest src in
+    (match toks with
+     | "readnew" :: _ ->
+       let d = List.hd rest in
+       if fs.fdom <> d then raise Unsupported;
+       let fnew = { fs with fdom = d; rule = (if fs.rel then IR else FR) } in
+       Hashtbl.replace fors fn fnew;
+       Hashtbl.remove dead_forests fn;
+       let did = (match Hashtbl.find_opt dom_ids d with Some i -> i | None -> 0) in
+       let fid = int_of_nat !ls.ls_next_fid in
+       lstep_do (LCreateForest (nat_of_int did));
+       Hashtbl.replace forest_ids fn fid
+     | _ ->
+       let ft = get_forest fn in
+       if fs.rel <> ft.rel || fs.range <> ft.range || fs.lab <> ft.lab || fs.rule <> ft.rule
+          || fs.sizes <> ft.sizes then raise Unsupported);
+    List.iteri (fun i n ->
+        match List.nth_opt l i with
+        | Some (Some t) -> Hashtbl.replace evtabs n (fn, t)
+        | _ -> ()) names;
+    emit (Printf.sprintf "read roots=%d" (List.length l))
   | "write" :: id :: fn :: roots ->
+    Hashtbl.remove xfiles_ev id;
     (* the model of the file is the list of functions written *)
     let l = List.map (fun r ->
         match Hashtbl.find_opt edges r with
@@ -1196,6 +1232,18 @@ let rec run toks =
        (match res with
         | Some t -> set_edge r fn t; show r
         | None -> raise Unsupported))
+  | "iter" :: a :: mask when Hashtbl.mem evtabs a
+                            && (try (get_forest (fst (Hashtbl.find evtabs a))).lab = EVP with _ -> false) ->
+    (* EV+: the assignments whose value is not +infinity, in lexicographic order, with
+       their values; the mask restricts them (table level: Build.matches on DD.all_asg) *)
+    let (fn, tb) = Hashtbl.find evtabs a in
+    let f = get_forest fn in
+    let m = if mask = [] then [] else fst (parse_positions f mask) in
+    let l = nat_of_int (nlev f) in
+    let asgs = all_asg (szf f) l in
+    let parts = List.concat (List.map2 (fun x v ->
+        if v < inf && matches l m x then [asg_str f x ^ "=" ^ string_of_int v] else []) asgs tb) in
+    emit (Stdlib.String.concat " " ("iter" :: parts))
   | "iter" :: a :: mask ->
     let (fn, t) = get_edge a in
     let f = get_forest fn in
